@@ -36,7 +36,7 @@ Op == /\ l <= Len(Trace) /\ E.op # "Reset" /\ l' = l + 1 /\ UNCHANGED tid
       /\ \/ E.op = "New" /\ New(E.k)
          \/ E.op = "App" /\ App(E.c, E.k)
          \/ E.op = "Clone" /\ Clone(E.c)
-      /\ Mon
+      /\ Mon = TRUE          \* (an equation: evaluated as one expression)
       /\ pf' = E.flats
 \* a history during which the library killed the process (a statement that ends up containing itself overflows the
 \* stack): the harness executes histories in child processes and records such a history as one event
